@@ -244,6 +244,24 @@ def l2(run, mod, fns):
         and len(hit) + len(miss) == len(fps)
     run.ob("L2", ok, "fuzzy_match: a miss prints a suggestion to stderr and returns None", "fuzzy_match miss path changed", module=mod,
            node=fz, func="fuzzy_match", construct="fuzzy_match miss")
+    # the suggestion always exists: the closest of *all* option names (cutoff 0 admits every candidate; a higher cutoff or
+    # another index makes the lookup raise IndexError on a name that resembles nothing - a traceback instead of a suggestion)
+    gcm = [c for c in ast.walk(fz) if isinstance(c, ast.Call) and call_name(c) in ("get_close_matches", "difflib.get_close_matches")]
+    for c in gcm:
+        par = getattr(c, "_parent", None)
+        idx = par.slice.value if isinstance(par, ast.Subscript) and par.value is c and isinstance(par.slice, ast.Constant) else None
+        kw = {k.arg: k.value for k in c.keywords}
+        cut = kw.get("cutoff", c.args[3] if len(c.args) > 3 else None)
+        nn = kw.get("n", c.args[2] if len(c.args) > 2 else None)
+        nval = nn.value if isinstance(nn, ast.Constant) else 3 if nn is None else None
+        if idx is None:
+            continue   # the list is used otherwise (tested for emptiness, joined ...): not this shape
+        ok = isinstance(cut, ast.Constant) and cut.value == 0 and isinstance(nval, int) and 0 <= idx < nval and \
+            len(c.args) >= 2 and norm(c.args[0]) == a_in and norm(c.args[1]) in (f"{a_opt}.keys()", a_opt, f"list({a_opt})", f"list({a_opt}.keys())")
+        run.ob("L2", ok, "fuzzy_match: the suggestion is the closest of all option names (always exists)",
+               f"`{norm(par)}`: with cutoff {norm(cut) if cut is not None else '0.6 (default)'}, n={nval} and index {idx} the lookup of the "
+               "closest name fails (IndexError) for an unknown name that resembles no option: a traceback instead of the suggestion",
+               module=mod, node=c, func="fuzzy_match", construct="fuzzy_match suggestion")
     # ---- main
     mn = fns["main"]
     mps = paths.Summariser(mod, mn, impure={"parser.parse_args"}).paths()
